@@ -65,13 +65,13 @@ def cmd_import(wt, i, prop):
     print('imported', i, m['files_changed'])
 
 
-def cmd_verify(i):
+def cmd_verify(i, at='HEAD'):
     d = os.path.join(SEEDED, i)
     m = load_meta(i)
     wt = tempfile.mkdtemp(prefix='seedwt-', dir='/dev/shm')
     os.rmdir(wt)
     try:
-        r = sh('git -C /repo worktree add -q --detach %s HEAD' % wt)
+        r = sh('git -C /repo worktree add -q --detach %s %s' % (wt, at))
         if r.returncode:
             print(r.stderr)
             return 2
@@ -94,7 +94,7 @@ def cmd_verify(i):
         m['verified'] = dict(applies=True, demo_without_patch_rc=without.returncode, demo_with_patch_rc=withp.returncode,
                              demo_with_patch_out=withp.stdout.strip()[-300:], pinned_tests=line, pinned_tests_unchanged=tests_ok,
                              ok=(without.returncode == 0 and withp.returncode == 1 and tests_ok),
-                             what_i_ran='git worktree of /repo HEAD under /dev/shm; demo before/after `git apply patch.diff`; pinned pytest command')
+                             what_i_ran='git worktree of /repo %s under /dev/shm; demo before/after `git apply patch.diff`; pinned pytest command' % at)
         save_meta(i, m)
         print(i, json.dumps(m['verified'])[:600])
         return 0 if m['verified']['ok'] else 1
@@ -153,7 +153,7 @@ def main(argv):
     if c == 'import':
         return cmd_import(argv[2], argv[3], argv[4])
     if c == 'verify':
-        return cmd_verify(argv[2])
+        return cmd_verify(argv[2], argv[3] if len(argv) > 3 else 'HEAD')
     if c == 'detect':
         args = [a for a in argv[3:] if not a.startswith('--')]
         tier = 'quick'
